@@ -1,5 +1,6 @@
 import Fuota.Model.Fs
 import Fuota.Model.Recon
+import Fuota.Model.Lfdbt
 /-!
 # L2 model: the matrix updater (`flash-algo-new/src/update.rs`, `update/matrix.rs`, `manager/firmware.rs`)
 with the reconstructor of `parity-reconstruct/src/lib.rs` running on the flash-backed stores.
@@ -9,44 +10,10 @@ Blocks are byte lists here (the L0 model `Fuota.Recon` uses numbers); bit arrays
 namespace Fuota.Updater
 open Fuota.Nor Fuota.Layout Fuota.Fs
 
-/-! ## parity rows (`fragmentation.rs`) -/
-
-def prbs23 (x : Nat) : Nat := x / 2 + ((x % 2 + x / 32 % 2) % 2) * 4194304
-
-def isPow2 (m : Nat) : Bool := m != 0 && (m &&& (m - 1)) == 0
-
-/-- inner `while r >= cap_m` loop: next accepted draw (fuel bounds the number of rejected draws) -/
-def nextDraw (capM modulus : Nat) : Nat → Nat → Option (Nat × Nat)
-  | 0, _ => none
-  | fuel + 1, x =>
-    let x' := prbs23 x
-    let r := x' % modulus
-    if r < capM then some (x', r) else nextDraw capM modulus fuel x'
-
-/-- outer loop: `nb` coefficients still to place -/
-def rowLoop (ffr : Bool) (capM modulus : Nat) : Nat → Nat → Nat → Nat → Option Nat
-  | 0, _, _, row => some row
-  | fuel + 1, nb, x, row =>
-    if nb = 0 then some row else
-    match nextDraw capM modulus 4096 x with
-    | none => none
-    | some (x', r) =>
-      if !ffr || !row.testBit r then rowLoop ffr capM modulus fuel (nb - 1) x' (row ||| 2 ^ r)
-      else rowLoop ffr capM modulus fuel nb x' row
-
-/-- `get_parity_matrix_row(cap_n, cap_m)`: `none` = a panic / non-termination within the fuel.
-    `checked` = overflow-checked arithmetic (the seed computation is wrapping since the repair). -/
-def parityRow (ffr : Bool) (capN capM : Nat) : Option Nat :=
-  if capN = 0 then none else
-  if capM > MAX_SEGMENTS then none else
-  let m := if isPow2 capM then 1 else 0
-  let x := (1 + (1001 * capN) % 2 ^ 32) % 2 ^ 32
-  -- with force-full-r a draw may be rejected as duplicate: allow 64 times the coefficient count
-  rowLoop ffr capM (capM + m) (if ffr then 64 * capM + 64 else capM) (capM / 2) x 0
+/-! ## parity rows: `Fuota.Lfdbt` (the generator C10's theorems are about) -/
 
 /-- `UpdaterMatrix::row` -/
-def updaterRow (ffr : Bool) (n m : Nat) : Option Nat :=
-  if m < n then some (2 ^ m) else parityRow ffr ((m - n + 1) % 2 ^ 32) n
+def updaterRow (ffr : Bool) (n m : Nat) : Option Nat := Lfdbt.updaterRow ffr n m
 
 /-! ## CRC-32/CKSUM (bitwise; init 0, poly 0x04C11DB7, xorout 0xFFFFFFFF, no reflection) -/
 def crcBit (crc : Nat) : Nat :=
@@ -361,6 +328,7 @@ def tryRecoverInner (nslots slotSize : Nat) : M (Option Upd) := do
     let cnt := popcount done MAX_SEGMENTS
     if used ≠ 0 ∧ n < cnt then throw .panic
     let l := if used ≠ 0 then n - cnt else 0
+    if l > maxL then return none
     return some { fw := fw, par := par, n := n, l := l, bs := bs, done := done, used := used, maxL := maxL,
                   matrixOffset := matrixOffset, complete := cnt == n }
   | _ => return none
